@@ -259,6 +259,7 @@ func (s *Sim) runOracles() {
 		if s.prog.Canned != nil || v.r.RawClient {
 			continue // canned reply / raw peer: judged by the dedicated oracles only
 		}
+		relaxHugeCodes = v.r.Transport == TGRPC
 		v.oracleC01()
 		v.oracleC02()
 		v.oracleC03()
@@ -268,6 +269,7 @@ func (s *Sim) runOracles() {
 		v.oracleC08()
 		v.oracleC10()
 	}
+	relaxHugeCodes = false
 	for _, f := range extraOracles {
 		f(s)
 	}
@@ -433,6 +435,9 @@ type expStatus struct {
 
 func sanitize(s string) string { return strings.ToValidUTF8(s, "�") }
 
+// relaxHugeCodes is set while a call on the grpc-go carrier is being judged.
+var relaxHugeCodes bool
+
 // expectedFrom maps the error a handler returned to what the client must see.
 func expectedFrom(h *ErrRec) expStatus {
 	switch h.Class {
@@ -444,7 +449,8 @@ func expectedFrom(h *ErrRec) expStatus {
 		if h.Code == 0 {
 			return expStatus{anyNonOK: true}
 		}
-		if uint32(h.Code) >= 1<<31 {
+		if uint32(h.Code) >= 1<<31 && relaxHugeCodes {
+			// the reference transport (grpc-go) cannot carry a code >= 2^31
 			return expStatus{anyNonOK: true}
 		}
 		return expStatus{code: codes.Code(uint32(h.Code)), msg: h.Msg, details: h.Details}
@@ -981,7 +987,13 @@ func (v *view) oracleC04() {
 		if ev.Side == 'h' && ev.Op == "waitctx" && ev.Note == "NEVER-CANCELLED" && (v.rs.ctxCause == "cancel" || v.rs.ctxCause == "deadline" || v.rs.ctxCause == "harness") {
 			clause := "handler-ctx-never-cancelled"
 			if v.r.Transport == THTTP && v.requestBodyUnread() {
-				clause += "|request-body-unread"
+				// net/http cannot notice a closed connection while a request
+				// body is unread, so a *cancel* cannot reach such a handler; a
+				// *deadline* does, through the propagated GRPC-Timeout
+				if v.rs.ctxCause != "deadline" {
+					continue
+				}
+				clause += "|request-body-unread|deadline"
 			}
 			v.fail("C04", clause, "the caller's context ended (%s at seq %d) but the handler's context was still not done when the run was torn down", v.rs.ctxCause, v.ctxSeq)
 		}
